@@ -95,7 +95,7 @@ def unbondCheck (s : State) (a : Addr) (pk : PubKey) (coin : Coin) (value : Int)
     let positive : Bool := match stake with | some v => decide (0 < v) | none => false
     if positive then
       (if wlStake + stake.getD 0 < value then some 405 else none)
-    else if wlStake < value then
+    else if wlStake < value || wlStake ≤ 0 then   -- /repo abd6676: without a positive stake a missing waitlist entry rejects a zero value too
       (if wlStake ≤ 0 then some 404 else some 412)
     else none
 
